@@ -196,3 +196,69 @@ Inductive launch_times : nat -> spawn_state -> spawn_state -> Prop :=
     launch_times (S k) s s'.
 
 Definition spawn_dotimes (n : Z) (s s' : spawn_state) : Prop := launch_times (dotimes_iters n) s s'.
+
+(* ---- the goroutine that Launch starts, with its exit paths and the launch context
+   sync.go:90-93     Launch:  wg.Inc(); op.PostHook(wg.Done).Background(ctx)
+   operation.go:82   Background(ctx): go wf(ctx)            — the context is handed on, it is NOT inspected
+   operation.go:237  PostHook(hook): func(ctx) { defer hook(); wf(ctx) }
+   So: whatever the state of the launch context the goroutine is started and the body is called (the body may
+   look at ctx itself), and wg.Done sits in a DEFERRED position of the goroutine's only frame: it runs when the
+   body returns, when it panics (the panic then continues) and when it ends through runtime.Goexit. *)
+Inductive exit_kind := ExReturn | ExPanic | ExGoexit.
+
+(* does the body run, given whether the launch context is still live?  (Background does not look) *)
+Definition launch_body_runs (ctx_live : bool) : bool := true.
+(* does the hook of `defer hook(); wf(ctx)` run for this way of leaving wf? *)
+Definition posthook_runs_hook (e : exit_kind) : bool := true.
+
+(* the launched goroutine, from counter c: returns the counter and whether Done was called and panicked *)
+Definition launch_goroutine (ctx_live : bool) (e : exit_kind) (c : Z) : Z * wg_res :=
+  if posthook_runs_hook e then let '(c', r, _) := wg_add c (-1) in (c', r) else (c, RUnit).
+
+(* Launch followed by the complete run of its goroutine *)
+Definition launch_roundtrip (ctx_live : bool) (e : exit_kind) (c : Z) : Z * wg_res :=
+  let '(c1, r1, _) := wg_add c 1 in
+  match r1 with
+  | RUnit => launch_goroutine ctx_live e c1
+  | _ => (c1, r1)
+  end.
+
+(* n launches that all run to completion (correspondence form): counter afterwards and number of bodies run *)
+Fixpoint launch_all_roundtrip (n : nat) (ctx_live : bool) (e : exit_kind) (c : Z) : Z * Z :=
+  match n with
+  | O => (c, 0)
+  | S k => let '(c1, _) := launch_roundtrip ctx_live e c in
+           let '(c2, ran) := launch_all_roundtrip k ctx_live e c1 in
+           (c2, ran + (if launch_body_runs ctx_live then 1 else 0))
+  end.
+
+(* the two mutated shapes, kept to show what the statements exclude:
+   (a) `op.PostHook(wg.Done).If(ctx.Err() == nil).Background(ctx)`: body AND hook are skipped when the launch context has ended;
+   (b) `wf(ctx); hook()`: the hook only runs when wf returns normally. *)
+Definition launch_goroutine_if_after_hook (ctx_live : bool) (e : exit_kind) (c : Z) : Z * wg_res :=
+  if ctx_live then launch_goroutine ctx_live e c else (c, RUnit).
+Definition launch_goroutine_seq_hook (ctx_live : bool) (e : exit_kind) (c : Z) : Z * wg_res :=
+  match e with ExReturn => let '(c', r, _) := wg_add c (-1) in (c', r) | _ => (c, RUnit) end.
+
+(* ---- the shape that `wait_check_and_park_atomic` excludes: a Wait whose "nothing to wait for" check
+   (`if wg.IsDone() || ctx.Err() != nil { return }`) runs BEFORE taking the mutex, while the loop parks in
+   cond.Wait() before it re-checks the counter.  One waiter, live context, arbitrary Adds by others. *)
+Inductive uphase :=
+| UStart      (* Wait called *)
+| UChecked    (* saw counter <> 0 without holding the mutex; has not locked yet *)
+| UParked     (* locked, went straight into cond.Wait(): on the wait list *)
+| UReturned.
+
+Record ustate := mkU { u_counter : Z; u_waiter : uphase }.
+
+Inductive ustep : ustate -> ustate -> Prop :=
+| u_check_zero s : u_waiter s = UStart -> u_counter s = 0 -> ustep s (mkU (u_counter s) UReturned)
+| u_check_nonzero s : u_waiter s = UStart -> u_counter s <> 0 -> ustep s (mkU (u_counter s) UChecked)
+| u_lock_and_park s : u_waiter s = UChecked -> ustep s (mkU (u_counter s) UParked)
+| u_add s n c' bc :   (* Add n by somebody else; its Broadcast (only at zero) releases a parked waiter, which re-checks: zero *)
+    wg_add (u_counter s) n = (c', RUnit, bc) ->
+    ustep s (mkU c' (if bc then match u_waiter s with UParked => UReturned | w => w end else u_waiter s)).
+
+Inductive ureach : ustate -> Prop :=
+| ur_init : ureach (mkU 0 UStart)
+| ur_step s s' : ureach s -> ustep s s' -> ureach s'.
